@@ -282,6 +282,19 @@ class AsyncRunnerTemplate(BaseRunner, ABC):
         input_variations = list(generate_map_inputs(normalized_values, map_over_list, map_mode, clone))
         if not input_variations:
             return []
+        if error_handling == "raise":
+            # Every item is given the same input names: a call that run() would
+            # reject for the first item is rejected here, before anything is
+            # emitted. (In continue mode such an item is a FAILED result; the
+            # override policy itself is applied by each item's run.)
+            _validate_on_missing(on_missing)
+            validate_inputs(
+                graph,
+                input_variations[0],
+                entrypoint=entrypoint,
+                selected=resolve_runtime_selected(select, graph),
+                on_internal_override="error" if on_internal_override == "error" else "ignore",
+            )
         if max_concurrency is None and len(input_variations) > MAX_UNBOUNDED_MAP_TASKS:
             raise ValueError(
                 f"Too many map tasks without a concurrency limit: {len(input_variations)}. "
